@@ -444,6 +444,49 @@ func delayedVerify(cc *caseCtx, cur *pktgen.Built) {
 	}
 }
 
+// rebuildFromName: Interest A (with parameters) was built and decodes. Two more Interests are
+// built with MakeInterest from (1) A's EncodedInterest.FinalName and (2) the name decoded from A's
+// own un-joined Wire - both end in a digest component whose bytes live inside A's wire - and
+// different parameters. Afterwards A's wire must still join to the same bytes and decode.
+func rebuildFromName(cc *caseCtx, a *pktgen.Built) {
+	check := func(src string, name enc.Name) {
+		if len(name) == 0 {
+			return
+		}
+		cc.stat["interests_rebuilt_from_an_earlier_name"]++
+		func() {
+			defer func() { recover() }()
+			// cap-limited slice header: the components (and their Val buffers) are shared, the
+			// slice A.FinalName itself is not appended into
+			spec.Spec{}.MakeInterest(name[:len(name):len(name)], &ndn.InterestConfig{}, enc.Wire{[]byte{0xa5, 0x5a}}, nil)
+		}()
+		late := append([]byte(nil), a.Wire.Join()...)
+		extra := map[string]any{"then": "MakeInterest(name = " + src + " of this Interest, parameters a55a)"}
+		if !bytes.Equal(late, a.Bytes) {
+			cc.viol("C12.digest", "an earlier Interest's wire changes when a second Interest is built from its "+src,
+				"the un-joined Wire of the first Interest joins to different bytes after MakeInterest was called with its "+src, extra)
+			return
+		}
+		if o := decode(true, enc.NewBufferReader(late)); !o.ok {
+			cc.viol("C12.digest", "an earlier Interest no longer decodes after a second Interest was built from its "+src, o.msg, extra)
+		}
+		cc.stat["decodes"]++
+	}
+	check("FinalName", a.FinalNm)
+	var w enc.Wire
+	for _, s := range a.Wire {
+		if len(s) > 0 {
+			w = append(w, s)
+		}
+	}
+	func() {
+		defer func() { recover() }()
+		if i, _, err := (spec.Spec{}).ReadInterest(enc.NewWireReader(w)); err == nil {
+			check("decoded name", i.Name())
+		}
+	}()
+}
+
 func evalCase(s *space, idx int, startBit int, careful bool, thorough bool, deadline time.Time) {
 	it := s.cases[idx]
 	if it.sweep {
@@ -638,6 +681,12 @@ func evalCase(s *space, idx int, startBit int, careful bool, thorough bool, dead
 				cc.viol("C12.digest", "EncodedInterest.FinalName does not end in the parameters digest", "", nil)
 			}
 		}
+	}
+
+	// ---- C12.digest (aliasing part): FinalName and decoded names point into the packet's wire.
+	// Build a second Interest from them and make sure the first one is left intact.
+	if d.Interest && d.PaySize != -1 && !resumed {
+		rebuildFromName(cc, b)
 	}
 
 	// ---- C12.tamper / C12.digest (dynamic part)
